@@ -84,6 +84,9 @@ class SqlFluffLineageAnalyzer(LineageAnalyzer):
             for e in parsed.violations
             if isinstance(e, (SQLLexError, SQLParseError))
         ]
+        if not violations and parsed.root_variant() is None:
+            # templater failure: sqlfluff gives up before lexing, there is no parsed tree at all
+            violations = [str(e) for e in parsed.violations]
         if violations:
             violation_msg = "\n".join(violations)
             raise InvalidSyntaxException(
